@@ -1204,6 +1204,53 @@ impl<'a> Harness<'a> {
 		}
 	}
 
+	/// A dependent chain that exists in the stempool only (B spends an output of A, both stem), then a txpool
+	/// submission that spends A's input otherwise: A has to leave the stempool, and B with it — its input is neither
+	/// unspent on chain nor created by a pooled transaction any more. The standing invariants judge the result.
+	fn op_stem_chain_conflict(&mut self) {
+		let v = self.view();
+		let (a, a_outs) = match self.gen_valid(&v) {
+			Some(x) => x,
+			None => return,
+		};
+		let spent: Vec<Coin> = inputs_vec(&a.inputs()).iter().filter_map(|(c, _)| self.coin(c)).collect();
+		if spent.is_empty() || a_outs.is_empty() {
+			return;
+		}
+		let ca = a_outs[0].clone();
+		let (fb, sb) = self.good_fee(1, 1, ca.value);
+		let (b, _) = match self.mk_tx(&[ca], 1, fb, sb, None, 0) {
+			Some(x) => x,
+			None => return,
+		};
+		let x = spent[0].clone();
+		let (ft, st) = self.good_fee(1, 2, x.value);
+		let (t, _) = match self.mk_tx(&[x], 2, ft, st, None, 0) {
+			Some(x) => x,
+			None => return,
+		};
+		self.run.count("stem_chain_conflict_operations", 1);
+		for (tx, stem, label, d) in [
+			(a, true, Label::Valid, "stem chain A"),
+			(b, true, Label::Valid, "stem chain B (spends A, both in the stempool only)"),
+			(t, false, Label::Free, "txpool submission spending A's input otherwise"),
+		] {
+			if self.stop {
+				return;
+			}
+			let src = self.rand_src();
+			self.submit(Submission {
+				kind: "stem_chain_conflict",
+				eff: tx.clone(),
+				tx,
+				label,
+				stem,
+				src,
+				desc: d.into(),
+			});
+		}
+	}
+
 	fn op_duplicate(&mut self) {
 		let v = self.view();
 		let mut cands: Vec<(Transaction, &'static str)> = vec![];
@@ -2559,6 +2606,8 @@ impl<'a> Harness<'a> {
 		let mut boundary_done = false;
 		let replay_at = 3 + self.prng.usize_below(n_target.max(4) - 3);
 		let mut replay_done = false;
+		let stem_chain_at = 2 + self.prng.usize_below(n_target.max(3) - 2);
+		let mut stem_chain_done = false;
 		while self.n_ops < n_target && !self.stop {
 			if Instant::now() > self.shared.deadline {
 				self.run.count("sequences_truncated_by_deadline", 1);
@@ -2567,6 +2616,11 @@ impl<'a> Harness<'a> {
 			if !boundary_done && self.n_ops >= boundary_at {
 				boundary_done = true;
 				self.op_weight_boundary();
+				continue;
+			}
+			if !stem_chain_done && self.n_ops >= stem_chain_at {
+				stem_chain_done = true;
+				self.op_stem_chain_conflict();
 				continue;
 			}
 			if !replay_done && self.n_ops >= replay_at {
